@@ -26,8 +26,12 @@ ITEMS = ["SVID", "MDLN", "ACKC6", "V"]
 def observe(var):
     """Shape of a generated variable through its public structure."""
     if isinstance(var, V.Array):
-        inner = vfunctions.generate(var.item_decriptor)
-        return ("array", observe(inner))
+        # an array builds every element from its kept description: the second element must have the shape of the first
+        first = observe(vfunctions.generate(var.item_decriptor))
+        second = observe(vfunctions.generate(var.item_decriptor))
+        if first != second:
+            return ("array-whose-second-element-differs-from-its-first", first, second)
+        return ("array", first)
     if isinstance(var, V.List):
         return ("record", [(k, observe(v)) for k, v in var.data.items()])
     return ("item", type(var).__name__)
